@@ -436,6 +436,72 @@ def issuedRaws : List HOp → List Bytes
   | .issue _ raw _ :: r => raw :: issuedRaws r
   | _ :: r => issuedRaws r
 
+/-! ### the store with its file, and checkpoints that may fail -/
+
+/-- the in-memory map and what is on disk (`none` = no ticket file yet; otherwise the store the
+    last successful `serialize` wrote) -/
+structure Disk where
+  mem : Store
+  file : Option Store
+deriving Repr
+
+/-- a checkpoint (`serialize`) of `mem`: the file is replaced atomically when the write succeeds
+    and left as it was when it fails -/
+def Disk.checkpoint (mem : Store) (d : Disk) (writeOk : Bool) : Disk :=
+  ⟨mem, if writeOk then some mem else d.file⟩
+
+/-- outcome of the ticket query at the top of `clientHandshake` -/
+inductive FlightF
+  | ticket (t : Ticket)
+  | uniformDH
+  /-- `getTicket` returned the `serialize` error: `clientHandshake` fails, nothing is sent -/
+  | error
+deriving DecidableEq, Repr
+
+/-- `getTicket` + the decision of `clientHandshake`, with the checkpoint succeeding or not.  A found
+    ticket is removed from the map and the map is checkpointed; when that fails the error is
+    returned (valid or expired ticket alike) and the connection attempt ends before anything is
+    written to the network. -/
+def Disk.connect (d : Disk) (addr : String) (now : Int) (writeOk : Bool) : Disk × FlightF :=
+  match d.mem.lookup addr with
+  | none => (d, .uniformDH)
+  | some t =>
+    let d' := d.checkpoint (d.mem.erase addr) writeOk
+    if ¬ writeOk then (d', .error)
+    else if t.isValid now then (d', .ticket t) else (d', .uniformDH)
+
+/-- `storeTicket`: the checkpoint error is ignored -/
+def Disk.storeTicket (d : Disk) (addr : String) (raw : Bytes) (now : Int) (writeOk : Bool) : Disk :=
+  if raw.length ≠ ticketKeyLength + ticketLength then d
+  else d.checkpoint (d.mem.storeTicket addr raw now) writeOk
+
+/-- restart: the map is what `loadTicketStore` keeps of the file -/
+def Disk.restart (d : Disk) (now : Int) : Disk :=
+  ⟨match d.file with
+   | none => []
+   | some f => f.reload now, d.file⟩
+
+/-- a client's life with write faults: every checkpoint succeeds (`true`) or fails (`false`) -/
+inductive HOpF
+  | connect (addr : String) (now : Int) (writeOk : Bool)
+  | issue (addr : String) (raw : Bytes) (now : Int) (writeOk : Bool)
+  | restart (now : Int)
+deriving Repr
+
+def runHistF : Disk → List Bytes → List HOpF → Disk × List Bytes
+  | d, pres, [] => (d, pres)
+  | d, pres, .connect addr now w :: r =>
+    match d.connect addr now w with
+    | (d', .ticket t) => runHistF d' (t.raw :: pres) r
+    | (d', _) => runHistF d' pres r
+  | d, pres, .issue addr raw now w :: r => runHistF (d.storeTicket addr raw now w) pres r
+  | d, pres, .restart now :: r => runHistF (d.restart now) pres r
+
+def issuedRawsF : List HOpF → List Bytes
+  | [] => []
+  | .issue _ raw _ _ :: r => raw :: issuedRawsF r
+  | _ :: r => issuedRawsF r
+
 /-! ## Reference server (no server exists in the repository) -/
 
 /-- what the server learns from a complete client first flight -/
